@@ -3,6 +3,7 @@ from vlib.tok import f64, lst
 from checks import arraygen as A
 ID = 'C01'
 LEAN_MODULES = ['NixModel.Props.C01', 'NixModel.Props.C01Whole', 'NixModel.Props.C01Types', 'NixModel.Gen.Types']
+TECHNIQUE = 'Lean 4 proof over a hand-written array model + tables translated from the source on every run (element-type mapping of the HDF5 backend) + differential correspondence (trace validation) with the built library'
 THEOREMS = ['Nix.C01.append_refused_no_trace', 'Nix.C01.setExtent_grow_back', 'Nix.Types.stored_type_reads_back', 'Nix.Types.memory_type_matches_file_type', 'Nix.Types.file_types_distinct', 'Nix.Types.storable_types', 'Nix.C01.setWhole_refused_no_trace', 'Nix.C01.setWhole_reads_back', 'Nix.C01.inBox_inShape_of_within', 'Nix.C01.resolve_of_boxOk', 'Nix.C01.boxWithin_lengths', 'Nix.C01.resolve_short_refused', 'Nix.C01.get_write', 'Nix.C01.read_write_disjoint', 'Nix.C01.write_shape', 'Nix.C01.write_outside_rejected', 'Nix.C01.inBox_zero', 'Nix.C01.get_write_zero', 'Nix.C01.get_setExtent', 'Nix.C01.read_after_grow_zero', 'Nix.C01.shrink_then_grow_zero', 'Nix.C01.applyOp_normal', 'Nix.C01.step_lastValue', 'Nix.C01.history_last_writer', 'Nix.C01.history_from_creation', 'Nix.C01.read_depends_on_store_only']
 RULE = ('random histories per array: 12 element types x rank 1-4 x shapes with extents 1..6 x array compression {none, deflate} x file compression '
         '{auto, deflate}; 6-40 ops from {write hyperslab, read hyperslab (also beyond the extent), read whole, append along an axis, set extent '
